@@ -14,9 +14,11 @@ COMMON = """
 #define UF_sqrt(x) __CPROVER_uninterpreted_sqrt(x)
 real_type __CPROVER_uninterpreted_sqrt(real_type);
 /* ExitingDirectionSampler{costheta, dir}(rng): one azimuthal draw; the direction value is outside this unit */
-Real3 EDS_sample(real_type costheta, Real3 dir, Engine* rng) __CPROVER_assigns(g_draws) __CPROVER_ensures(g_draws == __CPROVER_old(g_draws) + 1);
+Real3 EDS_sample(real_type costheta, Real3 dir, Engine* rng) __CPROVER_assigns(g_draws) __CPROVER_ensures(g_draws == __CPROVER_old(g_draws) + 1 && !__CPROVER_isnand(__CPROVER_return_value));
 /* calc_exiting_direction({p0, d0}, {p1, d1}): momentum-conserving direction; value outside this unit */
-Real3 calc_exiting_direction2(real_type p0, Real3 d0, real_type p1, Real3 d1) __CPROVER_assigns() __CPROVER_ensures(1);
+typedef struct { real_type p_in; Real3 d_in; real_type p_out; Real3 d_out; } ExitArgs;
+ExitArgs g_exit;      /* ghost: the momenta last handed to calc_exiting_direction (= unit(in - out), momentum conservation) */
+Real3 calc_exiting_direction2(real_type p0, Real3 d0, real_type p1, Real3 d1) __CPROVER_assigns(g_exit) __CPROVER_ensures(g_exit.p_in == p0 && g_exit.d_in == d0 && g_exit.p_out == p1 && g_exit.d_out == d1);
 /* IEEE-754 fact about correctly rounded multiplication, assumed (no installed solver decides 53-bit FP products): rounding is monotone,
    so  x >= 0, 0 < l <= 1  =>  0 <= x*l <= x */
 real_type FMUL_frac(real_type x, real_type l)
@@ -67,7 +69,10 @@ IFS_CALL_SIG = """
 Interaction IFS_call(IoniFinalStateHelper const* self, Engine* rng)
 __CPROVER_requires(__CPROVER_r_ok(self, sizeof(*self)) && __CPROVER_rw_ok(self->secondary_, sizeof(Secondary)))
 __CPROVER_requires(self->electron_energy_ >= 0 && self->electron_energy_ <= self->inc_energy_ && !__CPROVER_isinfd(self->inc_energy_))
-__CPROVER_assigns(*self->secondary_, g_draws)
+__CPROVER_requires(!__CPROVER_isnand(self->inc_momentum_) && !__CPROVER_isnand(self->inc_direction_))
+__CPROVER_assigns(*self->secondary_, g_draws, g_exit)
+/* momentum: the primary's new direction is unit(p_inc d_inc - p_e d_e) with d_e the direction just given to the delta ray */
+__CPROVER_ensures(g_exit.p_in == self->inc_momentum_ && g_exit.d_in == self->inc_direction_ && g_exit.d_out == self->secondary_->direction)
 /* ledger: the delta ray takes electron_energy, the primary keeps inc - electron_energy (>= 0), nothing is deposited locally */
 __CPROVER_ensures(self->secondary_->energy == self->electron_energy_ && self->secondary_->particle_id == self->electron_id_)
 __CPROVER_ensures(__CPROVER_return_value.energy == self->inc_energy_ - self->electron_energy_ && __CPROVER_return_value.energy >= 0)
@@ -79,7 +84,7 @@ IFS_RULES = Q_RULES + [
     Rule(r"std::sqrt\(", "UF_sqrt(", 1, note="sqrt -> uninterpreted (its value only feeds the directions)"),
     Rule(r"CELER_ASSERT\(costheta <= 1\);", "", 1, note="numeric assertion on the polar angle dropped: NOT decided (FP product/quotient/sqrt)"),
     Rule(r"ExitingDirectionSampler\{costheta, inc_direction_\}\(rng\)", "EDS_sample(costheta, inc_direction_, rng)", 1, note="direction sampler -> stub (one draw)"),
-    Rule(r"calc_exiting_direction\(\s*\{inc_momentum_, inc_direction_\}, \{momentum, secondary_->direction\}\)", "calc_exiting_direction2(inc_momentum_, inc_direction_, momentum, secondary_->direction)", 1, note="aggregate arguments flattened"),
+    Rule(r"calc_exiting_direction\(\s*\{([^{}]*),([^{}]*)\},\s*\{([^{}]*),([^{}]*)\}\)", r"calc_exiting_direction2(\1,\2,\3,\4)", 1, note="aggregate arguments flattened"),
     RESULT_INIT,
     Rule(r"result\.secondaries = \{secondary_, 1\};", "result.secondaries.ptr = secondary_; result.secondaries.size = 1;", 1, note="Span aggregate assignment"),
     IFS_MEMBERS,
@@ -129,8 +134,10 @@ __CPROVER_ensures(self->exit_energy_ == inc_energy - gamma_energy && self->gamma
 BFS_CALL_SIG = """
 Interaction BFS_call(BremFinalStateHelper const* self, Engine* rng)
 __CPROVER_requires(__CPROVER_r_ok(self, sizeof(*self)) && __CPROVER_rw_ok(self->secondary_, sizeof(Secondary)))
-__CPROVER_requires(!__CPROVER_isnand(self->gamma_energy_) && !__CPROVER_isnand(self->exit_energy_))
-__CPROVER_assigns(*self->secondary_, g_draws)
+__CPROVER_requires(!__CPROVER_isnand(self->gamma_energy_) && !__CPROVER_isnand(self->exit_energy_) && !__CPROVER_isnand(self->inc_momentum_) && !__CPROVER_isnand(self->inc_direction_))
+__CPROVER_assigns(*self->secondary_, g_draws, g_exit)
+/* momentum: the primary's new direction is unit(p_inc d_inc - k d_gamma): the photon's momentum is its energy, along the direction just given to it */
+__CPROVER_ensures(g_exit.p_in == self->inc_momentum_ && g_exit.d_in == self->inc_direction_ && g_exit.p_out == self->gamma_energy_ && g_exit.d_out == self->secondary_->direction)
 __CPROVER_ensures(self->secondary_->energy == self->gamma_energy_ && self->secondary_->particle_id == self->gamma_id_)
 __CPROVER_ensures(__CPROVER_return_value.energy == self->exit_energy_)
 __CPROVER_ensures(__CPROVER_return_value.secondaries.ptr == self->secondary_ && __CPROVER_return_value.secondaries.size == 1)
@@ -139,7 +146,7 @@ __CPROVER_ensures(__CPROVER_return_value.energy_deposition == 0 && __CPROVER_ret
 BFS_MEMBERS = members("inc_direction_", "inc_momentum_", "exit_energy_", "gamma_id_", "gamma_energy_", "costheta_", "secondary_")
 BFS_RULES = Q_RULES + [
     Rule(r"ExitingDirectionSampler\{costheta_, inc_direction_\}\(rng\)", "EDS_sample(costheta_, inc_direction_, rng)", 1, note="direction sampler -> stub (one draw)"),
-    Rule(r"calc_exiting_direction\(\s*\{inc_momentum_, inc_direction_\},\s*\{gamma_energy_, secondary_->direction\}\)", "calc_exiting_direction2(inc_momentum_, inc_direction_, gamma_energy_, secondary_->direction)", 1, note="aggregate arguments flattened"),
+    Rule(r"calc_exiting_direction\(\s*\{([^{}]*),([^{}]*)\},\s*\{([^{}]*),([^{}]*)\}\)", r"calc_exiting_direction2(\1,\2,\3,\4)", 1, note="aggregate arguments flattened"),
     RESULT_INIT,
     Rule(r"result\.secondaries = \{secondary_, 1\};", "result.secondaries.ptr = secondary_; result.secondaries.size = 1;", 1, note="Span aggregate assignment"),
     BFS_MEMBERS,
@@ -233,8 +240,8 @@ def build_mb(ctx):
     pc = ctx.func(MB, r"CELER_FUNCTION Interaction MollerBhabhaInteractor::operator\(\)\(Engine& rng\)", MB_RULES, name="MollerBhabhaInteractor::operator()")
     return (HDR + INTERACTION_MODEL + factories(ctx) + IFS_MODEL + ifs_stubs(ctx) + INTERACTOR_COMMON + MB_MODEL + """
 Interaction MB_call(MollerBhabhaInteractor const* self, Engine* rng)
-__CPROVER_requires(__CPROVER_r_ok(self, sizeof(*self)) && self->inc_energy_ > 0 && !__CPROVER_isinfd(self->inc_energy_) && NOTNAN(self->inc_momentum_) && NOTNAN(self->electron_mass) && self->electron_id != INVALID_ID && BUF_REQ)
-__CPROVER_assigns(g_draws, g_requested, __CPROVER_object_whole(g_buf))
+__CPROVER_requires(__CPROVER_r_ok(self, sizeof(*self)) && self->inc_energy_ > 0 && !__CPROVER_isinfd(self->inc_energy_) && NOTNAN(self->inc_momentum_) && NOTNAN(self->inc_direction_) && NOTNAN(self->electron_mass) && self->electron_id != INVALID_ID && BUF_REQ)
+__CPROVER_assigns(g_draws, g_requested, g_exit, __CPROVER_object_whole(g_buf))
 __CPROVER_ensures(g_requested == 1)
 __CPROVER_ensures(!ALLOC_OK(1) ==> FAIL_CLEAN(__CPROVER_return_value))
 /* ledger: incident = outgoing + delta ray, nothing deposited; the delta ray is an electron with 0 <= energy <= incident */
@@ -276,10 +283,10 @@ def build_mh(ctx):
     pc = ctx.func(MH, r"CELER_FUNCTION Interaction MuHadIonizationInteractor<ES>::operator\(\)\(Engine& rng\)", MH_RULES, name="MuHadIonizationInteractor<ES>::operator()")
     return (HDR + INTERACTION_MODEL + factories(ctx) + IFS_MODEL + ifs_stubs(ctx) + INTERACTOR_COMMON + MH_MODEL + """
 Interaction MH_call(MuHadIonizationInteractor const* self, Engine* rng)
-__CPROVER_requires(__CPROVER_r_ok(self, sizeof(*self)) && self->inc_energy_ > 0 && !__CPROVER_isinfd(self->inc_energy_) && NOTNAN(self->inc_momentum_) && NOTNAN(self->inc_mass_) && NOTNAN(self->electron_mass_) && self->electron_id_ != INVALID_ID && BUF_REQ)
+__CPROVER_requires(__CPROVER_r_ok(self, sizeof(*self)) && self->inc_energy_ > 0 && !__CPROVER_isinfd(self->inc_energy_) && NOTNAN(self->inc_momentum_) && NOTNAN(self->inc_direction_) && NOTNAN(self->inc_mass_) && NOTNAN(self->electron_mass_) && self->electron_id_ != INVALID_ID && BUF_REQ)
 /* assumed about the sampler: 0 <= min, max <= incident energy (kinematic limit) */
 __CPROVER_requires(g_min >= 0 && g_max <= self->inc_energy_ && NOTNAN(g_min) && NOTNAN(g_max))
-__CPROVER_assigns(g_draws, g_requested, __CPROVER_object_whole(g_buf))
+__CPROVER_assigns(g_draws, g_requested, g_exit, __CPROVER_object_whole(g_buf))
 /* nothing can be produced: explicit 'unchanged', no storage requested, no draw */
 __CPROVER_ensures(g_min >= g_max ==> (__CPROVER_return_value.action == IA_unchanged && g_requested == 0 && g_draws == 0 && __CPROVER_return_value.secondaries.size == 0 && UNTOUCHED(g_k)))
 __CPROVER_ensures((g_min < g_max && !ALLOC_OK(1)) ==> FAIL_CLEAN(__CPROVER_return_value))
@@ -332,8 +339,8 @@ def brem_builder(path, cls, rules):
         pc = ctx.func(D + path, r"CELER_FUNCTION Interaction %s::operator\(\)\(Engine& rng\)" % cls, rules, name=cls + "::operator()")
         return (HDR + INTERACTION_MODEL + factories(ctx) + BFS_MODEL + bfs_stubs(ctx) + INTERACTOR_COMMON + BR_MODEL + """
 Interaction BR_call(BremInteractor const* self, Engine* rng)
-__CPROVER_requires(__CPROVER_r_ok(self, sizeof(*self)) && self->inc_energy_ > 0 && !__CPROVER_isinfd(self->inc_energy_) && NOTNAN(self->inc_momentum_) && self->gamma_id != INVALID_ID && BUF_REQ)
-__CPROVER_assigns(g_draws, g_requested, __CPROVER_object_whole(g_buf))
+__CPROVER_requires(__CPROVER_r_ok(self, sizeof(*self)) && self->inc_energy_ > 0 && !__CPROVER_isinfd(self->inc_energy_) && NOTNAN(self->inc_momentum_) && NOTNAN(self->inc_direction_) && self->gamma_id != INVALID_ID && BUF_REQ)
+__CPROVER_assigns(g_draws, g_requested, g_exit, __CPROVER_object_whole(g_buf))
 __CPROVER_ensures(g_requested == 1)
 __CPROVER_ensures(!ALLOC_OK(1) ==> FAIL_CLEAN(__CPROVER_return_value))
 /* ledger: incident = outgoing + photon, nothing deposited; the photon has 0 < k <= incident */
@@ -383,7 +390,7 @@ KN_RULES = Q_RULES + [
     Rule(r"KleinNishinaInteractor::secondary_cutoff\(\)", "KN_CUTOFF", 1, note="constexpr threshold (value re-read from the header each run)"),
     Rule(r"\*electron_secondary = \{\};", "electron_secondary->particle_id = INVALID_ID; electron_secondary->energy = 0; electron_secondary->direction = 0;", 1, note="value-initialised Secondary (invalid id, zero energy)"),
     Rule(r"shared_\.ids\.electron", "self->electron_id", 1, note="params"),
-    Rule(r"calc_exiting_direction\(\{inc_energy_, inc_direction_\},\s*\{result\.energy, result\.direction\}\)", "KN_calc_exiting_direction(inc_energy_, inc_direction_, result.energy, result.direction)", 1, note="aggregate arguments flattened"),
+    Rule(r"calc_exiting_direction\(\s*\{([^{}]*),([^{}]*)\},\s*\{([^{}]*),([^{}]*)\}\)", r"calc_exiting_direction2(\1,\2,\3,\4)", 1, note="aggregate arguments flattened"),
     members("inc_energy_", "inc_direction_"),
 ]
 
@@ -400,8 +407,8 @@ def build_kn(ctx):
     pc = ctx.func(KN, r"CELER_FUNCTION Interaction KleinNishinaInteractor::operator\(\)\(Engine& rng\)", KN_RULES, name="KleinNishinaInteractor::operator()")
     return (HDR + INTERACTION_MODEL + factories(ctx) + COMMON + INTERACTOR_COMMON + KN_MODEL.replace("1e-4", kn_cutoff(ctx)) + """
 Interaction KN_call(KleinNishinaInteractor const* self, Engine* rng)
-__CPROVER_requires(__CPROVER_r_ok(self, sizeof(*self)) && self->inc_energy_ > 0 && !__CPROVER_isinfd(self->inc_energy_) && self->electron_id != INVALID_ID && BUF_REQ)
-__CPROVER_assigns(g_draws, g_omc, g_requested, __CPROVER_object_whole(g_buf))
+__CPROVER_requires(__CPROVER_r_ok(self, sizeof(*self)) && self->inc_energy_ > 0 && !__CPROVER_isinfd(self->inc_energy_) && NOTNAN(self->inc_direction_) && self->electron_id != INVALID_ID && BUF_REQ)
+__CPROVER_assigns(g_draws, g_omc, g_requested, g_exit, __CPROVER_object_whole(g_buf))
 __CPROVER_ensures(g_requested == 1)
 __CPROVER_ensures(!ALLOC_OK(1) ==> FAIL_CLEAN(__CPROVER_return_value))
 __CPROVER_ensures(ALLOC_OK(1) ==> (__CPROVER_return_value.action == IA_scattered && __CPROVER_return_value.secondaries.ptr == g_buf && __CPROVER_return_value.secondaries.size == 1))
@@ -416,6 +423,8 @@ __CPROVER_ensures((ALLOC_OK(1) && self->inc_energy_ - __CPROVER_return_value.ene
 __CPROVER_ensures(ALLOC_OK(1) ==> (KN_EMIT || KN_DEPOSIT))
 __CPROVER_ensures(ALLOC_OK(1) ==> __CPROVER_return_value.energy_deposition >= 0)
 __CPROVER_ensures((ALLOC_OK(1) && g_k != 0) ==> UNTOUCHED(g_k))
+/* momentum: an emitted electron goes along unit(k d_inc - k' d'), with (k', d') the scattered photon actually returned (a photon's momentum is its energy) */
+__CPROVER_ensures((ALLOC_OK(1) && g_buf[0].particle_id == self->electron_id) ==> (g_exit.p_in == self->inc_energy_ && g_exit.d_in == self->inc_direction_ && g_exit.p_out == __CPROVER_return_value.energy && g_exit.d_out == __CPROVER_return_value.direction))
 {""" + pc.body + """}
 void h_kn(void)
 {
@@ -433,6 +442,14 @@ typedef struct { real_type inc_energy_; Real3 inc_direction_; real_type electron
 /* the rejection loop's result: the energy fraction of the first photon, in (0, 1) (assumed: ReciprocalDistribution on [1/2 - s, 1/2 + s], s < 1/2) */
 real_type EGG_sample_epsil(EPlusGGInteractor const* self, Engine* rng) __CPROVER_assigns(g_draws) __CPROVER_ensures(__CPROVER_return_value > 0 && __CPROVER_return_value <= 1 && g_draws > __CPROVER_old(g_draws));
 Real3 ISO_sample(Engine* rng) __CPROVER_assigns(g_draws) __CPROVER_ensures(g_draws > __CPROVER_old(g_draws));
+double __CPROVER_uninterpreted_exitdir(double, double, double, double);
+/* calc_exiting_direction(in, out) = unit(in - out) (momentum conservation).  Both annihilation photons are returned, so the second photon must get
+   p(e+) - k1 d1: the OUT momentum has to be the FIRST photon's (energy, direction), the IN momentum the positron's along the incident direction. */
+static Real3 EGG_exiting_direction(real_type p_in, Real3 d_in, real_type p_out, Real3 d_out)
+{
+    __CPROVER_assert(p_out == g_buf[0].energy && d_out == g_buf[0].direction, "momentum.eplus_gg: the second photon's direction is p(e+) minus the FIRST photon's momentum (k1, d1)");
+    return __CPROVER_uninterpreted_exitdir(p_in, d_in, p_out, d_out);
+}
 """
 EGG_RULES = Q_RULES + [
     ALLOC1, NULLPTR, FACTORY, VALUE_AS,
@@ -445,7 +462,7 @@ EGG_RULES = Q_RULES + [
     Rule(r"CELER_ASSERT\(std::fabs\(cost\) <= 1\);", "", 1, note="numeric assertion on the polar angle dropped: NOT decided"),
     Rule(r"real_type const gamma_energy = epsil \* total_energy;", "real_type const gamma_energy = FMUL_frac(total_energy, epsil);", 1, note="FP product -> assumed IEEE lemma 0 <= E*eps <= E"),
     Rule(r"ExitingDirectionSampler\{cost, inc_direction_\}\(rng\)", "EDS_sample(cost, inc_direction_, rng)", 1, note="direction sampler -> stub"),
-    Rule(r"calc_exiting_direction\(\s*\{eplus_moment, inc_direction_\}, \{inc_energy_, inc_direction_\}\)", "calc_exiting_direction2(eplus_moment, inc_direction_, inc_energy_, inc_direction_)", 1, note="aggregate arguments flattened"),
+    Rule(r"calc_exiting_direction\(\s*\{([^{}]*),([^{}]*)\},\s*\{([^{}]*),([^{}]*)\}\)", r"EGG_exiting_direction(\1,\2,\3,\4)", 1, note="aggregate arguments flattened; stub checks WHICH momenta are subtracted"),
     Rule(r"shared_\.gamma", "self->gamma", 1, note="params"),
     Rule(r"shared_\.electron_mass", "self->electron_mass", "+", note="params"),
     members("inc_energy_", "inc_direction_"),
@@ -458,7 +475,7 @@ def build_egg(ctx):
 #define EGG_TOTAL (self->inc_energy_ + 2 * self->electron_mass)
 Interaction EGG_call(EPlusGGInteractor const* self, Engine* rng)
 __CPROVER_requires(__CPROVER_r_ok(self, sizeof(*self)) && self->inc_energy_ >= 0 && !__CPROVER_isinfd(self->inc_energy_) && self->electron_mass > 0 && !__CPROVER_isinfd(EGG_TOTAL) && self->gamma != INVALID_ID && BUF_REQ)
-__CPROVER_assigns(g_draws, g_requested, __CPROVER_object_whole(g_buf))
+__CPROVER_assigns(g_draws, g_requested, g_exit, __CPROVER_object_whole(g_buf))
 __CPROVER_ensures(g_requested == 2)
 __CPROVER_ensures(!ALLOC_OK(2) ==> FAIL_CLEAN(__CPROVER_return_value))
 /* the positron is absorbed; two photons are emitted, nothing deposited locally */
@@ -502,12 +519,13 @@ UNITS = [
     brem_unit("c04_seltzer_berger", "SeltzerBergerInteractor.hh", "SeltzerBergerInteractor", BR_RULES),
     brem_unit("c04_relativistic_brem", "RelativisticBremInteractor.hh", "RelativisticBremInteractor", BR_RULES),
     brem_unit("c04_mu_brems", "MuBremsstrahlungInteractor.hh", "MuBremsstrahlungInteractor", MUB_RULES, ["muon-brems rejection loop replaced by its assumed result; draw count not decided"]),
-    Unit("c04_klein_nishina", build_kn, "h_kn", enforce="KN_call", replace=["KN_sample_epsilon", "FMUL_frac", "EDS_sample", "KN_calc_exiting_direction"], timeout=300, backend=["sat", "cvc5", "z3"],
+    Unit("c04_klein_nishina", build_kn, "h_kn", enforce="KN_call", replace=["KN_sample_epsilon", "FMUL_frac", "EDS_sample", "calc_exiting_direction2"], timeout=300, backend=["sat", "cvc5", "z3"],
          must_have=[r"KN_call.postcondition", r"ALLOC_call.precondition", r"FMUL_frac.precondition"], checks=["--bounds-check", "--pointer-check"],
          assumptions=["rejection loop result epsilon in (0,1] (assumed; draw count not decided)", "IEEE lemma 0 <= E*eps <= E (assumed)", "directions not verified", "StackAllocator contract (enforced in c16_alloc)"],
          note="KleinNishinaInteractor::operator(): clean failure; 0 <= E' <= E; the recoil E - E' goes to the electron (>= threshold, electron id) or to the local deposit with the slot cleared (< threshold); only slot 0 written"),
-    Unit("c04_eplus_gg", build_egg, "h_egg", enforce="EGG_call", replace=["EGG_sample_epsil", "FMUL_frac", "EDS_sample", "calc_exiting_direction2", "ISO_sample"], timeout=300, backend=["sat", "cvc5", "z3"],
-         must_have=[r"EGG_call.postcondition", r"ALLOC_call.precondition", r"FMUL_frac.precondition"], checks=["--bounds-check", "--pointer-check"],
+    Unit("c04_eplus_gg", build_egg, "h_egg", enforce="EGG_call", replace=["EGG_sample_epsil", "FMUL_frac", "EDS_sample", "ISO_sample"], timeout=300, backend=["sat", "cvc5", "z3"],
+         must_have=[r"EGG_call.postcondition", r"ALLOC_call.precondition", r"FMUL_frac.precondition", r"momentum.eplus_gg"], checks=["--bounds-check", "--pointer-check"],
+         replay={"src": "replay/c04.cc", "argv": lambda inputs, fl: [["eplus_gg_momentum"]]},
          assumptions=["rejection loop result epsil in (0,1] (assumed; draw count not decided)", "IEEE lemma 0 <= E*eps <= E (assumed)", "directions not verified", "StackAllocator contract (enforced in c16_alloc)"],
          note="EPlusGGInteractor::operator(): clean failure; positron absorbed, two gammas; at rest m c^2 each, in flight k1 + k2 = T + 2 m c^2 term by term, both >= 0; only slots 0,1 written"),
 ]
